@@ -72,6 +72,9 @@ fn plan(prop: &str, tier: &str, scale: f64) -> Plan {
             p.w2_n = 0;
             if prop == "C08" {
                 p.w3_tok = if thorough { 140_000 } else { 40_000 };
+            } else {
+                // lookups on arenas with worn-out and retired slots
+                p.w3 = if thorough { vec![(1, 70_000, 0), (3, 140_000, 1), (1, 40_000, 2)] } else { vec![(1, 36_000, 0), (2, 70_000, 1)] };
             }
         }
         "C12" => {
